@@ -154,7 +154,12 @@ func (d *Decoder) processCommonAttr(ectx evaluationContext, startElement xml.Sta
 		case "http://www.w3.org/XML/1998/namespace":
 			switch attr.Name.Local {
 			case "lang":
-				ectx.Language = &attr.Value
+				if len(attr.Value) == 0 {
+					// xml:lang="" removes the language in scope
+					ectx.Language = nil
+				} else {
+					ectx.Language = &attr.Value
+				}
 			case "base":
 				baseIRI := ectx.ResolveIRI(attr.Value)
 
